@@ -316,7 +316,9 @@ fn c07_random(case_seed: u64, acc: &mut Acc) {
     let mut r = Prng::new(case_seed);
     let cfg = profile_width();
     let wide_bits = r.chance(30, 1000);
-    let case = if wide_bits { c07_wide_bits_case(&mut r) } else { gen::generate(&mut r, &cfg) };
+    let mut case = if wide_bits { c07_wide_bits_case(&mut r) } else { gen::generate(&mut r, &cfg) };
+    // a driver refusal now and then: the vectors handed over after it must be reduced like all others
+    super::dynamic::maybe_fault(&mut case, &mut r, 120);
     if wide_bits {
         acc.tag("bits_over_up_to_64_columns_of_mixed_widths");
     }
